@@ -539,13 +539,91 @@ def _ev_filter(cond, sym, c):
     return ev(n, sym, c)
 
 
+def r13g(ck, prog):
+    """every residue letter that is read feeds the histogram the kind is decided from: an increment of a letter_freq element
+    that is indexed by an input character is executed for every letter the character loop sees - a condition it sits under
+    must hold for all 52 letters (evaluated per byte) and must not depend on a counter of how much has been counted already
+    (a sampling cap makes the kind depend on the order of the records)"""
+    from ..bytedom import char_origin
+    n = 0
+    for F in prog.lib_functions():
+        for u in F.body.walk():
+            if not ((u.k == "UnaryOperator" and u.d["op"] == "++") or (u.k == "CompoundAssignOperator" and u.d["op"] == "+=")):
+                continue
+            t = u.kids[0].strip()
+            if not (t.k == "ArraySubscriptExpr" and t.kids[0].strip(casts=True).k == "MemberExpr" and
+                    t.kids[0].strip(casts=True).d.get("field") == "letter_freq"):
+                continue
+            org = char_origin(t.kids[1])
+            if len(org) != 1:
+                continue                    # indexed by a counter (merge of two histograms), not by an input character
+            n += 1
+            sym = Sym(text=org[0].text())
+            where = site(prog, u, "letter_freq++")
+            loop = next((a for a in u.ancestors() if a.k in ("ForStmt", "WhileStmt", "DoStmt")), None)
+            if loop is None:
+                raise AnalysisBroken("R13g: %s counts a character outside a loop" % F.name)
+            conds = []
+            x = u
+            while x.parent is not None and x.parent is not loop:
+                pa = x.parent
+                if pa.k == "IfStmt" and x is not pa.child("cond"):
+                    conds.append((pa, x is pa.child("then") or x.within(pa.child("then"))))
+                elif pa.k in ("ConditionalOperator", "SwitchStmt") or (pa.k in ("ForStmt", "WhileStmt", "DoStmt")):
+                    raise AnalysisBroken("R13g: the histogram increment of %s sits under a %s; not decided" % (F.name, pa.k))
+                x = pa
+            # early exits of the iteration in front of the increment:  if(c > 127) continue;
+            body = loop.child("body")
+            if body is not None and body.k == "CompoundStmt":
+                for st in body.kids:
+                    if u.within(st) or st is u:
+                        break
+                    if st.k == "IfStmt" and st.child("else") is None and any(j.k in ("ContinueStmt", "BreakStmt") for j in st.child("then").walk()) \
+                            and not any(j.k in ("ForStmt", "WhileStmt", "DoStmt") for j in st.child("then").walk()):
+                        conds.append((st, False))
+            ck.inst("R13g", where, "%s counts %s under %d condition(s)" % (F.name, org[0].text(), len(conds)), prog.config)
+            for ifs, in_then in conds:
+                c = ifs.child("cond")
+                missed = []
+                unknown = False
+                for b in list(range(65, 91)) + list(range(97, 123)):
+                    v = ev(c, sym, b)
+                    if v is None:
+                        unknown = True
+                        break
+                    if bool(v) != in_then:
+                        missed.append(chr(b))
+                if not unknown:
+                    if missed:
+                        ck.violation("R13g", "R13g/%s/letters" % F.name, where,
+                                     "%s does not count the letters %s (condition %s): they are stored as residues but do not vote on the kind" % (
+                                         F.name, "".join(missed), c.text()[:50]), prog.config)
+                    continue
+                # depends on something other than the character: a budget that the branch itself uses up?
+                branch = (ifs.child("then") if in_then else ifs.child("else")) if u.within(ifs) else loop.child("body")
+                bumped = {y.kids[0].strip().d.get("did") for y in (branch.walk() if branch is not None else [])
+                          if ((y.k == "UnaryOperator" and y.d["op"] in ("++", "--")) or y.k == "CompoundAssignOperator") and y.kids[0].strip().k == "DeclRefExpr"}
+                tested = {r.d.get("did") for r in c.walk() if r.k == "DeclRefExpr"}
+                if bumped & tested:
+                    nm = next(r.d["name"] for r in c.walk() if r.k == "DeclRefExpr" and r.d.get("did") in bumped)
+                    ck.violation("R13g", "R13g/%s/budget" % F.name, where,
+                                 "%s counts a character only while %s: the counter %s is used up by the counting itself, so residues "
+                                 "read later never vote - the kind then depends on the order of the records, not on their composition" % (
+                                     F.name, c.text()[:50], nm), prog.config)
+                    continue
+                raise AnalysisBroken("R13g: %s counts a character under the condition %s, which is not a test of the character" % (F.name, c.text()[:50]))
+    ck.floor("R13g", n, 4, "histogram increments indexed by an input character")
+
+
 def run(ck, progs):
     describe(ck)
+    ck.rule("R13g", "every increment of the histogram by an input character is executed for all 52 letters (conditions evaluated per byte) and under no budget that the counting itself uses up")
     for cfg, prog in progs.items():
         ck.attempt(r13a, ck, prog)
         ck.attempt(r13b, ck, prog)
         ck.attempt(r13e, ck, prog)
         ck.attempt(r13f, ck, prog)
+        ck.attempt(r13g, ck, prog)
         from . import c04
         b0 = len(ck.instances)
         ck.attempt(c04.r04a, ck, prog)
